@@ -197,7 +197,7 @@ def run(rep) -> None:
         if not g["exc"] and not g["rejected"]:
             packages.append(d / "structured")
         for name, rdoc in c12.rich_documents().items():
-            if name in ("rich", "baseline_openapi_3.1.yaml") or not quick:
+            if name in ("rich", "zoo", "zoo-warn", "baseline_openapi_3.1.yaml") or not quick:
                 pk = d / ("rich_" + "".join(ch if ch.isalnum() else "_" for ch in name))
                 g = gen.generate(rdoc, pk)
                 if not g["exc"] and not g["rejected"]:
